@@ -18,7 +18,12 @@ def _with_state_lock(func):
 
     async def wrapper(obj: 'TransferState', *args, **kwargs):
         async with obj.transfer._state_lock:
-            result = await func(*args, **kwargs)
+            # The state can have changed while this call was waiting for the
+            # lock: dispatch on the state that is current now, not on the state
+            # object the caller picked the method from
+            state = obj.transfer.state
+            method = getattr(type(state), func.__name__)
+            result = await method(state, *args, **kwargs)
         return result
 
     return wrapper
